@@ -87,6 +87,8 @@ KANI_HARNESSES = {
                           bounded="two timer slots per side, frameworks without machines", default_tag="C18.safety"),
     "k_sim_peek_blocked": H("maybenot-simulator", "verif_proofs", "k_sim_peek_blocked", "queue_peek::peek_blocked_exp", SIMQ,
                             bounded="whole-second offsets below 2^32", default_tag="C16.safety"),
+    "k_sim_queue_blocked": H("maybenot-simulator", "verif_proofs", "k_sim_queue_blocked", "queue_peek::peek_queue", SIMQ,
+                             bounded="one queued TunnelSent event, whole-second offsets below 2^16, no network delay", default_tag="C16.safety"),
     "k_sim_peek_action_2": H("maybenot-simulator", "verif_proofs", "k_sim_peek_action_2", "queue_peek::peek_scheduled_action", SIMQ,
                              bounded="one slot per side, whole-second offsets below 2^32", default_tag="C17.safety"),
     "k_sim_peek_timer_2": H("maybenot-simulator", "verif_proofs", "k_sim_peek_timer_2", "queue_peek::peek_scheduled_internal_timer", SIMQ,
@@ -154,8 +156,8 @@ PROPS = {
     "C13": {"verus": ["vfw"], "kani": ["k_dist_sample", "k_clamp_timeout", "k_clamp_duration", "k_clamp_limit",
                                   "k_counter_value"] + VALID_DIST, "title": "Sampling in range",
             "explanation": "V-FW, on the real bodies of Dist::validate and Dist::dist_sample with rand_distr replaced by stand-ins whose constructors are functions of their arguments: an accepted distribution satisfies dist_valid [C13.valid], and under dist_valid every constructor unwrap in dist_sample succeeds and rand's gen_range precondition (low < high, finite width) holds - for all 11 families, argument order included [C13.nopanic] (floats as uninterpreted IEEE predicates with the comparison axioms listed in the trusted base); and only validated distributions are ever sampled: Framework::new's check of every machine is carried by the framework invariant (opaque fact cfg_valid about the never-changing machine list) to each of the four sampling calls in transition / update_counter / schedule_action, whose leaf contracts require action_valid / counter_valid [C13.validated]. Kani: Dist::sample with the underlying rand_distr sampler over-approximated by 'returns any f64': the result is not NaN, >= 0, <= max when max > 0, and finite, for all 11 families and all start/max including NaN and infinities; the consumers' conversions never panic and clamp to one day. NOT decided: that the rand_distr samplers return promptly (probabilistic termination) - an explicit assumption."},
-    "C16": {"verus": [], "kani": ["k_sim_block_fires", "k_sim_peek_blocked"], "title": "Simulator blocking (per-action rules)",
-            "explanation": "PARTIAL, function level, BOUNDED (two timer slots per side). K-SIM runs the real do_scheduled_action on real SimState pairs with std::time arithmetic bit-precise: a BlockOutgoing action that fires is reported as BlockingBegin for its machine and side at the fire time (plus the integration's delays, stubbed as arbitrary) [C16.begin]; the side's blocking then lasts until fire time + duration if the action says replace or that is later than the running expiry, otherwise the running expiry stays [C16.expiry]; the blocking's bypass property becomes the action's flag exactly when this action set the expiry, and the event carries it [C16.bypass]; the other side is untouched [C16.side]; peek_blocked_exp returns the earlier of the two sides' expiries with its side [C16.due]. NOT decided: the single BlockingEnd at the expiry (pick_next), and that nothing leaves a blocked side unless bypass allows (peek_queue / the event queues) - whole-run behaviour of the event loop."},
+    "C16": {"verus": [], "kani": ["k_sim_block_fires", "k_sim_peek_blocked", "k_sim_queue_blocked"], "title": "Simulator blocking (per-action rules)",
+            "explanation": "PARTIAL, function level, BOUNDED (two timer slots per side). K-SIM runs the real do_scheduled_action on real SimState pairs with std::time arithmetic bit-precise: a BlockOutgoing action that fires is reported as BlockingBegin for its machine and side at the fire time (plus the integration's delays, stubbed as arbitrary) [C16.begin]; the side's blocking then lasts until fire time + duration if the action says replace or that is later than the running expiry, otherwise the running expiry stays [C16.expiry]; the blocking's bypass property becomes the action's flag exactly when this action set the expiry, and the event carries it [C16.bypass]; the other side is untouched [C16.side]; peek_blocked_exp returns the earlier of the two sides' expiries with its side [C16.due]; with one TunnelSent packet waiting on a side, peek_queue does not let it leave before that side's blocking expires unless the blocking is bypassable and the packet carries the bypass flag, whatever the other side's blocking is [C16.hold]. NOT decided: the single BlockingEnd at the expiry (pick_next), and the same rule with several queued packets / replaced padding (whole-run behaviour of the event loop)."},
     "C17": {"verus": ["vsim"], "kani": ["k_sim_padding_fires", "k_sim_block_fires", "k_sim_peek_action_2", "k_sim_peek_action"], "title": "Simulator action timers (per-function rules)",
             "explanation": "PARTIAL, function level. V-SIM verifies the real body of trigger_update (any number of machines; std::time, the event queue and the framework replaced by stand-ins, the framework's returned actions being any sequence naming distinct existing machines, which is what V-FW proves [C04.slot]): a returned SendPadding / BlockOutgoing action becomes that machine's pending action, due at the current time + its timeout (+ the integration's trigger delay), replacing whatever was pending [C17.schedule][C17.supersede]; Cancel of the action timer (or of all) clears it, Cancel of the internal timer and UpdateTimer leave it [C17.cancel]; machines without a returned action keep theirs [C17.frame]. K-SIM (real code, bit-precise, BOUNDED to two slots per side): a due SendPadding action is executed as PaddingSent for its machine and side exactly at its scheduled time with its flags, and removed - it happens once - while other pending actions stay [C17.fire][C17.once]; peek_scheduled_action returns the time to the earliest pending action not in the past [C17.due]. NOT decided: that pick_next always advances to that earliest time first (whole-run behaviour of the event loop)."},
     "C18": {"verus": ["vsim"], "kani": ["k_sim_timer_ends", "k_sim_peek_timer_2", "k_sim_peek_timer"], "title": "Simulator internal timers (per-function rules)",
